@@ -267,6 +267,8 @@ type simResult struct {
 	adverts    int
 	resnap     int
 	classes    map[string]bool
+	ops        int           // prefix operations issued so far
+	drained    time.Duration // extra settling time spent waiting for operation logs to be fetched
 }
 
 type simModel struct {
@@ -327,9 +329,15 @@ func runSim(t *testing.T, c Case, sched Sched) (res simResult) {
 				nw.mu.Unlock()
 			}
 			nw.runFor(tailOf(c.N))
-			// let fetches that are in flight at this instant complete (bounded)
-			for k := 0; k < 40 && nw.inFlight() > 0; k++ {
-				nw.runFor(250 * time.Millisecond)
+			// Prefix operations are fetched one at a time, one round trip each: a router that is
+			// still working through a long operation log (or has a fetch in flight) gets the
+			// time that needs -- bounded by the number of operations issued so far times the
+			// longest round trip -- before the tables are judged.
+			rtt := time.Duration(2*(c.N-1)*sched.MaxDelay+20) * time.Millisecond
+			drain := 10*time.Second + time.Duration(res.ops)*rtt
+			for spent := time.Duration(0); spent < drain && (nw.inFlight() > 0 || nw.behind()); spent += 500 * time.Millisecond {
+				nw.runFor(500 * time.Millisecond)
+				res.drained += 500 * time.Millisecond
 			}
 			res.points = append(res.points, nw.observe(step, lastEvent))
 		}
@@ -392,6 +400,7 @@ func (nw *network) apply(c Case, ev Ev, res *simResult) {
 		if nw.nodes[ev.A].up {
 			nw.appCommand(ev.A, "register", prefixPool[ev.P%len(prefixPool)])
 			res.classes["announce"] = true
+			res.ops++
 		}
 	case "wd":
 		if nw.nodes[ev.A].up {
@@ -400,6 +409,7 @@ func (nw *network) apply(c Case, ev Ev, res *simResult) {
 				res.classes["withdraw"] = true
 			}
 			nw.appCommand(ev.A, "unregister", p)
+			res.ops++
 		}
 	case "burst":
 		if nw.nodes[ev.A].up {
@@ -412,10 +422,33 @@ func (nw *network) apply(c Case, ev Ev, res *simResult) {
 				} else {
 					nw.appCommand(ev.A, "register", p)
 				}
+				res.ops++
 				nw.runFor(2 * time.Millisecond)
 			}
 		}
 	}
+}
+
+// behind: some router knows (from the sync group) of prefix operations of a router in its
+// RIB that it has not fetched yet. Only used to decide how long to keep waiting (bounded).
+func (nw *network) behind() bool {
+	synctest.Wait()
+	for _, n := range nw.nodes {
+		if !n.up {
+			continue
+		}
+		s := n.router.VerifSnapshot()
+		inRib := map[string]bool{}
+		for _, e := range s.Rib {
+			inRib[e.Name.String()] = true
+		}
+		for _, p := range s.Prefixes {
+			if inRib[p.Name.String()] && p.Known < p.Latest {
+				return true
+			}
+		}
+	}
+	return false
 }
 
 func (nw *network) observe(step int, lastEvent time.Duration) settlePoint {
